@@ -141,6 +141,9 @@ func (bc *boundsCtx) key(v ssa.Value) string {
 		if calleeName(&x.Call) == "builtin.len" && len(x.Call.Args) == 1 {
 			k = "len(" + bc.key(x.Call.Args[0]) + ")"
 		}
+		if recv, isNF := reflectCountCall(&x.Call, "NumField"); isNF {
+			k = "numfield(" + bc.reflKey(recv) + ")"
+		}
 	case *ssa.ChangeType:
 		k = bc.key(x.X)
 	case *ssa.Convert:
@@ -640,6 +643,37 @@ type BoundSite struct {
 
 // checkBounds proves all index/slice instructions of fn.
 func checkBounds(p *Prog, fn *ssa.Function, axioms func(bc *boundsCtx, f *factSet, ins ssa.Instruction)) []BoundSite {
+	return checkBoundsOpt(p, fn, axioms, false)
+}
+
+// reflectCountCall: a call of reflect.Value.<name> or reflect.Type.<name>; returns the receiver.
+func reflectCountCall(cc *ssa.CallCommon, name string) (ssa.Value, bool) {
+	if cc.IsInvoke() {
+		if cc.Method.Name() == name && isNamed(cc.Value.Type(), "reflect", "Type") {
+			return cc.Value, true
+		}
+		return nil, false
+	}
+	if calleeName(cc) == "(reflect.Value)."+name && len(cc.Args) >= 1 {
+		return cc.Args[0], true
+	}
+	return nil, false
+}
+
+// reflKey: a reflect.Value and the reflect.Type obtained from it by Type() denote the same
+// struct type, so NumField of either bounds Field of either.
+func (bc *boundsCtx) reflKey(v ssa.Value) string {
+	if call, ok := v.(*ssa.Call); ok {
+		if !call.Call.IsInvoke() && calleeName(&call.Call) == "(reflect.Value).Type" && len(call.Call.Args) == 1 {
+			return bc.reflKey(call.Call.Args[0])
+		}
+	}
+	return bc.key(v)
+}
+
+// checkBoundsOpt: withReflectFields additionally makes every reflect Field(i) call an
+// obligation 0 <= i < NumField() of the same value/type.
+func checkBoundsOpt(p *Prog, fn *ssa.Function, axioms func(bc *boundsCtx, f *factSet, ins ssa.Instruction), withReflectFields bool) []BoundSite {
 	bc := newBoundsCtx(p, fn)
 	reach := reachableBlocks(fn)
 	var out []BoundSite
@@ -663,6 +697,13 @@ func checkBounds(p *Prog, fn *ssa.Function, axioms func(bc *boundsCtx, f *factSe
 				if x.Max != nil {
 					what = "slice3"
 				}
+			case *ssa.Call:
+				recv, isF := reflectCountCall(&x.Call, "Field")
+				if !withReflectFields || !isF {
+					continue
+				}
+				args := x.Call.Args
+				base, idxV, what = recv, args[len(args)-1], "reflect-field"
 			default:
 				continue
 			}
@@ -685,7 +726,11 @@ func checkBounds(p *Prog, fn *ssa.Function, axioms func(bc *boundsCtx, f *factSe
 					}
 				}
 			}
-			if ln, _ := bc.lenTerm(base); ln != "" {
+			if what == "reflect-field" {
+				ln := "numfield(" + bc.reflKey(base) + ")"
+				bc.targets = []string{ln}
+				f.le("", 0, ln, 0, 0)
+			} else if ln, _ := bc.lenTerm(base); ln != "" {
 				bc.targets = []string{ln}
 				f.le("", 0, ln, 0, 0)
 			} else {
@@ -697,9 +742,12 @@ func checkBounds(p *Prog, fn *ssa.Function, axioms func(bc *boundsCtx, f *factSe
 				axioms(bc, f, ins)
 			}
 			ln, lo0 := bc.lenTerm(base)
+			if what == "reflect-field" {
+				ln, lo0 = "numfield("+bc.reflKey(base)+")", 0
+			}
 			site := BoundSite{Ins: ins, What: what}
 			switch what {
-			case "index":
+			case "index", "reflect-field":
 				in, io := bc.term(idxV, 0)
 				ge0 := prove(f, "", 0, in, io)     // 0 <= idx
 				lt := prove(f, in, io+1, ln, lo0)  // idx+1 <= len
